@@ -153,13 +153,16 @@ def expected(spec, path=(), parent=None, out=None, unspec=None, either=None):
             auth = auths[-1] if auths else None
             rd = rds[-1] if rds else None
         nrec = kids(spec, "numberOfRecords")
-        if not (size and size[1]):
+        def has(n_):
+            # (the model keeps text: a value such as the number 0 handed to it is the text "0", which is a value)
+            return bool(n_) and n_[1] is not None and str(n_[1]) != ""
+        if not has(size):
             W("DATATABLE_SIZE_MISSING")
-        if not (auth and auth[1]):
+        if not has(auth):
             W("DATATABLE_MD5_CHECKSUM_MISSING")
-        if not (nrec and nrec[0][1]):
+        if not has(nrec[0] if nrec else None):
             W("DATATABLE_NUMBER_OF_RECORDS_MISSING")
-        if not (rd and rd[1]):
+        if not has(rd):
             W("DATATABLE_RECORD_DELIMITER_MISSING")
     elif name == "description":
         pieces = text_pieces(spec)
@@ -264,10 +267,14 @@ def physical(size="present", auth="present", rd="textformat"):
         k.append(["size", "10", {"unit": "byte"}, []])
     elif size == "empty":
         k.append(["size", "", {}, []])
+    elif size == "zero":
+        k.append(["size", 0, {"unit": "byte"}, []])
     if auth == "present":
         k.append(["authentication", "abc123", {"method": "MD5"}, []])
     elif auth == "empty":
         k.append(["authentication", "", {}, []])
+    elif auth == "zero":
+        k.append(["authentication", False, {"method": "MD5"}, []])
     tf = []
     if rd == "textformat":
         tf.append(["recordDelimiter", "\\n", {}, []])
@@ -313,6 +320,8 @@ def datatable(desc="text", phys=True, nrec="present", own_methods=False, own_cov
         k.append(["numberOfRecords", "3", {}, []])
     elif nrec == "empty":
         k.append(["numberOfRecords", "", {}, []])
+    elif nrec == "zero":
+        k.append(["numberOfRecords", 0, {}, []])            # a number, not a string (the setter makes it the text "0")
     return ["dataTable", None, {}, k]
 
 
@@ -686,6 +695,9 @@ def all_params(tier):
             out.append(dict(dt=dict(attr_methods=(uid, email))))
     for n in (18, 19, 20, 21, 24, 40):
         out.append(dict(abstract=("nested", n)))
+    # values that are falsy without being empty text
+    out.append(dict(dt=dict(nrec="zero")))
+    out.append(dict(dt=dict(size="zero", auth="zero", nrec="zero")))
     # look-alikes at another level must not stand in for the dataset-level element
     for dtk in (dict(own_methods=True), dict(own_coverage=True), dict(own_methods=True, own_coverage=True)):
         for meth in (True, False):
